@@ -9,5 +9,6 @@ CONSTANTS
   ReadEdits = FALSE
   FirstWriteKeeps = FALSE
   HookEditsOld = FALSE
+  LendsOld = FALSE
   InitKinds = {"absent", "present"}
   MaxLive = 200
